@@ -11,6 +11,7 @@ from tiv.astutil import conds, body_walk, call_name, dotted, enclosing_stmt, gua
 from tiv.cfg import CFG, fmt_path
 from tiv.match import find_stmts, match_expr, match_stmt
 from tiv.mutate import M
+from tiv.sem import expand, trace, same, same_bool
 
 RULES = {
     "R1": "only _close_image closes a source-derived image: every `.close()` / `with` on an image in term_image/image/* has a receiver created "
@@ -34,6 +35,17 @@ CM, BL, KT, IT = "image/common.py", "image/block.py", "image/kitty.py", "image/i
 FRESH_IMG = ("Image.open", "Image.new", "Image.frombytes", "PIL.Image.frombytes", "PIL.Image.open", "io.BytesIO", "io.StringIO", "open", "BytesIO", "StringIO")
 
 
+ITER_CTORS = {"ImageIterator", "RenderIterator", "iter"}
+
+
+def _is_iterator(fn, recv) -> bool:
+    """A local name every binding of which is an iterator/generator construction."""
+    if not isinstance(recv, ast.Name):
+        return False
+    bs = [st for t, st in stores_in(ast.Module(body=fn.body, type_ignores=[])) if isinstance(t, ast.Name) and t.id == recv.id]
+    return bool(bs) and all(isinstance(getattr(b, "value", None), ast.Call) and ((call_name(b.value) or "").split(".")[-1] in ITER_CTORS or (call_name(b.value) or "").endswith("._animate")) for b in bs)
+
+
 def _fresh(fn, name):
     bs = [st for t, st in stores_in(ast.Module(body=fn.body, type_ignores=[])) if isinstance(t, ast.Name) and t.id == name]
     if not bs:
@@ -50,10 +62,10 @@ def _fresh(fn, name):
 def run(ck, m):
     # ---- R1 ----------------------------------------------------------------------------
     n1 = 0
-    for rel in (CM, BL, KT, IT):
-        for q, fn in m.file(rel).defs.items():
-            if not isinstance(fn, ast.FunctionDef):
-                continue
+    for rel, q, fn in m.functions():
+        if rel not in (CM, BL, KT, IT):
+            continue
+        if True:
             params = {a.arg for a in fn.args.posonlyargs + fn.args.args + fn.args.kwonlyargs}
             for n in body_walk(fn):
                 recv = None
@@ -72,7 +84,7 @@ def run(ck, m):
                 if recv is None:
                     continue
                 r = norm(recv)
-                if r in ("self", "self._animator", "image_it", "self._iterator", "render_iter", "os") or r.endswith("_animator"):
+                if r in ("self", "os") or r.endswith(("_animator", "_iterator")) or _is_iterator(fn, recv):
                     continue  # generators / iterators, not images
                 n1 += 1
                 if q.endswith("BaseImage._close_image"):
@@ -86,14 +98,20 @@ def run(ck, m):
     ck.expect(n_ci >= 12, f"expected >= 12 _close_image calls, found {n_ci}")
 
     # ---- R2 ----------------------------------------------------------------------------
-    def is_release(n):
-        if n.ast is None:
+    def frame_var(fn):
+        fi = find_stmts("$$v = img if frame else None", body_walk(fn))
+        return norm(fi[0][1]["v"]) if fi else None
+
+    def make_is_release(fv):
+        def is_release(n):
+            if n.ast is None:
+                return False
+            if n.kind == "test" and fv and match_expr(f"{fv} is not img", n.ast) is not None:
+                return True
+            if n.kind == "stmt" and any(isinstance(c, ast.Call) and norm(c.func) == "self._close_image" and c.args and norm(c.args[0]) == "img" for c in ast.walk(n.ast)):
+                return True
             return False
-        if n.kind == "test" and match_expr("frame_img is not img", n.ast) is not None:
-            return True
-        if n.kind == "stmt" and any(isinstance(c, ast.Call) and norm(c.func) == "self._close_image" and c.args and norm(c.args[0]) == "img" for c in ast.walk(n.ast)):
-            return True
-        return False
+        return is_release
     rends = []
     for rel, cls in m.subclasses("BaseImage"):
         for s in cls.body:
@@ -102,15 +120,16 @@ def run(ck, m):
     ck.expect(len(rends) >= 3, f"expected >= 3 concrete _render_image, found {len(rends)}")
     for rel, cn, fn in rends:
         g = CFG(fn)
-        p = g.search([g.entry], lambda n: n is g.exit_return, avoid=is_release, from_succ=False, edge_ok=lambda s, lab, d: not lab.startswith(("e:", "p:")))
+        fv = frame_var(fn)
+        ck.ob("R2", fn, fv is not None, f"{cn}._render_image: the iterator's frame image must be recognised with `<v> = img if frame else None`", stmt=f"{cn}: frame_img = img if frame else None")
+        fv = fv or "frame_img"
+        p = g.search([g.entry], lambda n: n is g.exit_return, avoid=make_is_release(fv), from_succ=False, edge_ok=lambda s, lab, d: not lab.startswith(("e:", "p:")))
         ck.ob("R2", fn, p is None, f"{cn}._render_image can return normally without releasing the image it was given ({fmt_path(p) if p else ''}): the file opened by _renderer() stays open",
               stmt=f"{cn}._render_image: image released on every normal path")
         # the conditional release really releases: `if frame_img is not img: self._close_image(img)`
         for s in body_walk(fn):
-            if isinstance(s, ast.If) and match_expr("frame_img is not img", s.test) is not None:
-                ck.ob("R2", s, [norm(x) for x in s.body] == ["self._close_image(img)"] and not s.orelse, f"{cn}: `if frame_img is not img:` must release the image", stmt=f"{cn}: if frame_img is not img: self._close_image(img)")
-        fi = find_stmts("frame_img = img if frame else None", body_walk(fn))
-        ck.ob("R2", fn, len(fi) >= 1, f"{cn}._render_image: the iterator's frame image must be recognised with `frame_img = img if frame else None`", stmt=f"{cn}: frame_img = img if frame else None")
+            if isinstance(s, ast.If) and match_expr(f"{fv} is not img", s.test) is not None:
+                ck.ob("R2", s, [norm(x) for x in s.body] == ["self._close_image(img)"] and not s.orelse, f"{cn}: `if {fv} is not img:` must release the image", stmt=f"{cn}: if frame_img is not img: self._close_image(img)")
         # the explicit error path releases before raising
         for r in body_walk(fn):
             if isinstance(r, ast.Raise) and r.exc is not None and "RenderError" in norm(r.exc):
@@ -129,6 +148,7 @@ def run(ck, m):
 
     # ---- R3 ----------------------------------------------------------------------------
     cr = m.get(CM, "BaseImage._get_render_data.convert_resize_img")
+    gfv = frame_var(m.get(CM, "BaseImage._get_render_data")) or "frame_img"
     n3 = 0
     for t in body_walk(cr):
         if isinstance(t, ast.Try):
@@ -142,7 +162,7 @@ def run(ck, m):
             pv = match_stmt("$$p = img", prev) if prev is not None else None
             okp = pv is not None
             pn = norm(pv["p"]) if pv else "prev_img"
-            fin_ok = any(isinstance(s, ast.If) and match_expr(f"frame_img is not {pn}", s.test) is not None and [norm(x) for x in s.body] == [f"self._close_image({pn})"] for s in t.finalbody)
+            fin_ok = any(isinstance(s, ast.If) and match_expr(f"{gfv} is not {pn}", s.test) is not None and [norm(x) for x in s.body] == [f"self._close_image({pn})"] for s in t.finalbody)
             ck.ob("R3", t, okp and fin_ok,
                   f"`{short(rb[0], 40)}` can fail; the previous image must be saved (`{pn} = img`) and released in a `finally` under `frame_img is not {pn}` - otherwise a failing conversion "
                   "leaves the source file open", stmt=f"convert_resize_img: release previous image in finally around `{short(rb[0], 40)}`")
@@ -155,11 +175,11 @@ def run(ck, m):
             blk = s._p.body
             i = blk.index(s)
             prevs = blk[:i]
-            rel = [p for p in prevs if isinstance(p, ast.If) and match_expr("frame_img is not img", p.test) is not None and [norm(x) for x in p.body] == ["self._close_image(img)"]]
+            rel = [p for p in prevs if isinstance(p, ast.If) and match_expr(f"{gfv} is not img", p.test) is not None and [norm(x) for x in p.body] == ["self._close_image(img)"]]
             ck.ob("R3", s, len(rel) == 1 and not any(isinstance(x, ast.Assign) and norm(x.targets[0]) == "img" for x in blk[blk.index(rel[0]) + 1:i]) if rel else False,
                   f"`{short(s, 40)}` replaces the image; the previous one must be released (`if frame_img is not img: self._close_image(img)`) just before", stmt=f"_get_render_data: release before `{short(s, 40)}`")
     ck.expect(n3b == 2, f"_get_render_data: expected 2 composite rebindings, found {n3b}")
-    fi = find_stmts("frame_img = img if frame else None", body_walk(grd))
+    fi = find_stmts("$$v = img if frame else None", body_walk(grd))
     ck.ob("R3", grd, len(fi) == 1, "_get_render_data must recognise the iterator's frame image", stmt="_get_render_data: frame_img = img if frame else None")
 
     # ---- R4 ----------------------------------------------------------------------------
@@ -212,14 +232,14 @@ def run(ck, m):
             if isinstance(t, ast.Attribute) and t.attr == "_animator" and not q.endswith("ImageIterator.__init__") and not isinstance(st, ast.Delete):
                 prev_closed = any(isinstance(c, ast.Call) and norm(c.func) in (f"{norm(t.value)}.close", f"{norm(t)}.close") and c.lineno < st.lineno for c in body_walk(fn))
                 ck.ob("R4", st, prev_closed, f"{q}: `{short(st, 60)}` overwrites a generator that owns an opened image without releasing it (the image opened by ImageIterator.__init__ is left to the garbage collector)",
-                      stmt=f"{q}: {short(st, 70)}")
+                      stmt=f"{q}: generator attribute `_animator` of a local iterator overwritten (#{sum(1 for t2, s2 in stores_in(ast.Module(body=fn.body, type_ignores=[])) if isinstance(t2, ast.Attribute) and t2.attr == '_animator' and s2.lineno < st.lineno) + 1})")
 
     # ---- R5 ----------------------------------------------------------------------------
     n5 = 0
-    for rel in (CM, BL, KT, IT):
-        for q, fn in m.file(rel).defs.items():
-            if not isinstance(fn, ast.FunctionDef):
-                continue
+    for rel, q, fn in m.functions():
+        if rel not in (CM, BL, KT, IT):
+            continue
+        if True:
             for st in body_walk(fn):
                 if isinstance(st, ast.Assign) and isinstance(st.value, ast.Call) and call_name(st.value) == "open" and isinstance(st.targets[0], ast.Name):
                     n5 += 1
@@ -247,7 +267,7 @@ def run(ck, m):
     ck.ob("R5", enclosing_stmt(wr), okw, "writing the temporary copy can fail: the descriptor must be closed in a finally and the file removed before re-raising", stmt="from_url: write protected (close in finally, remove on failure)")
     cl = m.get(CM, "BaseImage.close")
     rm = next((c for c in body_walk(cl) if isinstance(c, ast.Call) and call_name(c) == "os.remove"), None)
-    gs = [norm(t) for t, b in guards(rm) if b] if rm else []
+    gs = conds(rm) if rm else set()
     tol = rm is not None and any(part == "body" and any(h.type is not None and "FileNotFoundError" in norm(h.type) for h in t.handlers) for t, part in try_context(rm))
     ck.ob("R5", cl, rm is not None and "self._source_type is ImageSource.URL" in gs and "not self._closed" in gs and norm(rm.args[0]) == "self._source" and tol,
           "close() must remove the temporary copy exactly when the source is a URL (once, tolerating a missing file)", stmt="BaseImage.close: remove temp copy iff URL source")
@@ -264,7 +284,7 @@ def run(ck, m):
           "an animated draw must save the image's current frame before its try and restore it in the finally", stmt="_display_animated: current frame saved and restored")
     rt = next((s for s in rn.body if isinstance(s, ast.Try) and s.finalbody), None)
     sv = [s for s in rn.body if isinstance(s, ast.Assign) and norm(s.value) == "self._size" and rt is not None and s.lineno < rt.lineno]
-    ok = bool(sv) and any(isinstance(s, ast.If) and "isinstance" in norm(s.test) and any(norm(x) in (f"self.size = {norm(sv[0].targets[0])}", f"self._size = {norm(sv[0].targets[0])}") for x in s.body) for s in rt.finalbody)
+    ok = bool(sv) and any(isinstance(s, ast.If) and same_bool(rn, s.test, f"isinstance({norm(sv[0].targets[0])}, Size)") and any(norm(x) in (f"self.size = {norm(sv[0].targets[0])}", f"self._size = {norm(sv[0].targets[0])}") for x in s.body) for s in rt.finalbody)
     ck.ob("R6", rn, ok, "_renderer must restore a dynamic size in finally (rendering never fixes a dynamic size)", stmt="_renderer: dynamic size restored")
     writers = set()
     for rel, _q, t, st in m.stores():
